@@ -470,16 +470,23 @@ type forCase struct {
 
 // ruleFor checks For/While/Loop against the reference loop semantics by
 // comparing abstract traces for every combination of choices.
-func (s *seqRT) ruleFor() {
+func (s *seqRT) ruleFor() { s.ruleForOnly(nil) }
+
+// ruleForOnly restricts the loop cases (e.g. to the post-less shapes that the
+// lowering of delegation and range loops produces).
+func (s *seqRT) ruleForOnly(only func(fc forCase) bool) {
 	c := s.c
 	roles := s.ruleRole()
-	c.min("SEQ.FOR", 6)
+	c.min("SEQ.FOR", 2)
 	cases := []forCase{
 		{"For", false, false}, {"For", true, false}, {"For", false, true}, {"For", true, true},
 		{"While", false, true}, {"While", true, true},
 		{"Loop", true, true},
 	}
 	for _, fc := range cases {
+		if only != nil && !only(fc) {
+			continue
+		}
 		s.forCase(fc, roles)
 	}
 }
